@@ -259,3 +259,94 @@ func c17r12(rc *core.RC) {
 		rc.Unknown("encoder/string-writers", token.NoPos, "found %d string writers with a mark and %d writes to it (confirmed: 4 and more than 20)", funcs, n)
 	}
 }
+
+// ---- C17.R13 what decides whether a member name is escaped is set wherever a member node is made ----
+
+// Under the escape-key pass the compiler writes a member name through the HTML-escaping string writer
+// (StructFieldCode.structKey). If that is made to depend on a property of the node (only names given by a tag can
+// hold <, > or &), the property has to be right in every node that reaches structKey: also in the copies
+// StructCode.Filter makes for a field query. Obligation: every field of StructFieldCode that the condition of the
+// escaping branch of structKey reads is set in every composite literal of StructFieldCode in the package. (With the
+// condition on ctx.escapeKey alone there is nothing to set.)
+func c17r13(rc *core.RC) {
+	p := rc.P
+	pk := p.Pkg("encoder")
+	fd := p.Func("encoder", "StructFieldCode.structKey")
+	if pk == nil || fd == nil || fd.Body == nil || len(fd.Recv.List) != 1 || len(fd.Recv.List[0].Names) != 1 {
+		rc.Unknown("encoder.StructFieldCode.structKey", token.NoPos, "method not found")
+		return
+	}
+	info := pk.TypesInfo
+	name := p.FuncName(fd)
+	rc.Touch(name)
+	recv := info.Defs[fd.Recv.List[0].Names[0]]
+	// the branch that escapes: its body calls one of the string writers
+	var cond ast.Expr
+	ast.Inspect(fd.Body, func(m ast.Node) bool {
+		ifs, ok := m.(*ast.IfStmt)
+		if !ok || cond != nil {
+			return true
+		}
+		esc := false
+		ast.Inspect(ifs.Body, func(k ast.Node) bool {
+			if c, ok := k.(*ast.CallExpr); ok && strings.HasPrefix(core.CalleeName(info, c), "encoder.AppendString") {
+				esc = true
+			}
+			return true
+		})
+		if esc {
+			cond = ifs.Cond
+		}
+		return true
+	})
+	if cond == nil {
+		rc.Unknown(name+"/escaping-branch", fd.Pos(), "no branch that writes the name through AppendString found")
+		return
+	}
+	var needs []string
+	ast.Inspect(cond, func(m ast.Node) bool {
+		if sel, ok := m.(*ast.SelectorExpr); ok && core.ObjOf(info, sel.X) == recv {
+			needs = append(needs, sel.Sel.Name)
+		}
+		return true
+	})
+	if len(needs) == 0 {
+		rc.OK(name+"/escape-condition", cond.Pos(), "the name is escaped whenever the pass asks for it (`%s`): no property of the node decides", core.Src(p.Fset, cond))
+		return
+	}
+	nlit := 0
+	for _, f := range p.Funcs("encoder") {
+		if f.Body == nil {
+			continue
+		}
+		fname := p.FuncName(f)
+		k := 0
+		ast.Inspect(f.Body, func(m ast.Node) bool {
+			cl, ok := m.(*ast.CompositeLit)
+			if !ok {
+				return true
+			}
+			nt, isNamed := info.TypeOf(cl).(*types.Named)
+			if !isNamed || nt.Obj().Name() != "StructFieldCode" {
+				return true
+			}
+			k++
+			nlit++
+			set := map[string]bool{}
+			for _, el := range cl.Elts {
+				if kv, ok := el.(*ast.KeyValueExpr); ok {
+					if id, ok := kv.Key.(*ast.Ident); ok {
+						set[id.Name] = true
+					}
+				}
+			}
+			for _, need := range needs {
+				rc.Check(set[need], fmt.Sprintf("%s/member-node#%d sets %s", fname, k, need), cl.Pos(), "structKey escapes a member name only when %s.%s says so, and this StructFieldCode is made without it: its name is written raw by the escape-key pass (a tag name with <, > or & selected through a field query)", recv.Name(), need)
+			}
+			return true
+		})
+	}
+	if nlit < 2 {
+		rc.Unknown("encoder/member-nodes", token.NoPos, "found %d composite literals of StructFieldCode (confirmed: 2)", nlit)
+	}
+}
